@@ -132,21 +132,22 @@ fn outcome(program: &Program<Name>, data: &[RData]) -> String {
 
 #[derive(Default)]
 pub struct Local {
-    functions: u64,
-    states: u64,
-    distinct_states: u64,
-    transitions: u64,
-    evaluations: u64,
-    changed_by_optimiser: u64,
-    bound_ok: u64,
-    fixpoint_lengths: BTreeMap<usize, u64>,
-    outcomes: HashSet<String>,
-    fold_family: BTreeMap<String, (u64, u64)>,
-    violating_functions: u64,
-    per_signature: BTreeMap<String, u64>,
-    violations: Vec<Violation>,
-    machinery: Vec<String>,
-    samples: Vec<String>,
+    pub functions: u64,
+    pub states: u64,
+    pub distinct_states: u64,
+    pub transitions: u64,
+    pub evaluations: u64,
+    pub changed_by_optimiser: u64,
+    pub bound_ok: u64,
+    pub fixpoint_lengths: BTreeMap<usize, u64>,
+    pub outcomes: HashSet<String>,
+    pub fold_family: BTreeMap<String, (u64, u64)>,
+    pub violating_functions: u64,
+    pub not_executable_before_conversion: u64,
+    pub per_signature: BTreeMap<String, u64>,
+    pub violations: Vec<Violation>,
+    pub machinery: Vec<String>,
+    pub samples: Vec<String>,
 }
 
 /// Check one compiled function: `s0` pre-optimisation, `fin` what the pipeline returned.
@@ -220,6 +221,15 @@ pub fn check_states(src: &str, class: &str, s0: &Program<Name>, fin: &Program<Na
                 l.machinery.push(format!("budget exhausted evaluating the unoptimised program of\n{src}"));
             }
             continue;
+        }
+        // A *structural* machine error before optimisation (type mismatch between list element
+        // representations) means the intermediate representation is not yet in executable
+        // form: the code generator leaves the conversion of typed list arguments
+        // (multi-scalar-multiplication's integer / group-element lists) to the `afterwards`
+        // pass.  Such a pre-optimisation program has no meaning of its own to preserve.
+        if want.starts_with("fail:TypeMismatch") || want.starts_with("fail:ListTypeMismatch") {
+            l.not_executable_before_conversion += 1;
+            return;
         }
         l.outcomes.insert(want.chars().take(40).collect());
         for (name, p) in &to_run {
@@ -454,7 +464,7 @@ fn run_fold_family(run: &mut Run, tier: Tier) -> Local {
             batches.push((i, chunk.to_vec()));
         }
     }
-    let cap = Some(Duration::from_secs(if tier == Tier::Quick { 25 } else { 900 }));
+    let cap = Some(Duration::from_secs(if tier == Tier::Quick { 8 } else { 600 }));
     let out = par_indices(
         batches.len() as u64,
         1,
@@ -537,6 +547,7 @@ fn merge(ls: Vec<Local>) -> Local {
         t.changed_by_optimiser += l.changed_by_optimiser;
         t.bound_ok += l.bound_ok;
         t.violating_functions += l.violating_functions;
+        t.not_executable_before_conversion += l.not_executable_before_conversion;
         for (k, v) in l.per_signature {
             *t.per_signature.entry(k).or_default() += v;
         }
@@ -572,7 +583,7 @@ fn run_strata_states(run: &mut Run, tier: Tier) -> Local {
         offsets.push(total_batches);
         total_batches += c.div_ceil(BATCH) as u64;
     }
-    let cap = Some(Duration::from_secs(if tier == Tier::Quick { 50 } else { 1700 }));
+    let cap = Some(Duration::from_secs(if tier == Tier::Quick { 35 } else { 1500 }));
     let out = par_indices(
         total_batches,
         1,
@@ -654,6 +665,12 @@ fn run_strata_states(run: &mut Run, tier: Tier) -> Local {
 }
 
 pub fn run(tier: Tier, replay: Option<String>) -> i32 {
+    run_with_extra(tier, replay, None)
+}
+
+/// `extra` contributes further compiler output (h_proj: every test and validator of the
+/// dependency-free example projects, compiled through the real `Project`).
+pub fn run_with_extra(tier: Tier, replay: Option<String>, extra: Option<&dyn Fn(&mut Run, Tier) -> Local>) -> i32 {
     if let Some(path) = replay {
         return replay_case(&path);
     }
@@ -663,7 +680,12 @@ pub fn run(tier: Tier, replay: Option<String>) -> i32 {
     let b = if part == "strata" { Local::default() } else { run_fold_family(&mut run, tier) };
     let fold_json: serde_json::Map<String, serde_json::Value> = b.fold_family.iter().map(|(k, v)| (k.clone(), json!({"folded": v.0, "not_folded": v.1}))).collect();
     let fold_total = b.functions;
-    let t = merge(vec![a, b]);
+    let c = match extra {
+        Some(f) => f(&mut run, tier),
+        None => Local::default(),
+    };
+    run.set("project_items", c.functions);
+    let t = merge(vec![a, b, c]);
     run.violations_extend(t.violations);
     for m in t.machinery.iter().take(4) {
         run.machinery_error(m.clone());
@@ -673,6 +695,7 @@ pub fn run(tier: Tier, replay: Option<String>) -> i32 {
     }
     run.set("functions", t.functions);
     run.set("functions_with_a_difference", t.violating_functions);
+    run.set("programs_not_executable_before_the_typed_list_conversion", t.not_executable_before_conversion);
     run.set("differences_per_signature", json!(t.per_signature));
     run.set("constant_folding_family_functions", fold_total);
     run.set("constant_folding_family", serde_json::Value::Object(fold_json));
@@ -684,7 +707,7 @@ pub fn run(tier: Tier, replay: Option<String>) -> i32 {
     run.set("functions_changed_by_the_optimiser", t.changed_by_optimiser);
     run.set("pass_sequence_lengths", json!(t.fixpoint_lengths));
     run.set("distinct_nontrivial", t.outcomes.len() as u64);
-    run.set("rule", "state = Program<Name>; s0 = the program handed to the optimiser (hook H1); transitions = the public passes in the order of aiken_optimize_and_intern, replayed by the harness and bound to finalize's output by flat-byte equality (traces_validated_against_impl); every distinct state is evaluated on the full argument product and compared with s0 (quick: all intermediate states for every 4th function, s0 vs final for the rest; thorough: all states); inputs: the C01 strata + the constant-folding family (every foldable builtin x boundary literals); distinct_nontrivial = distinct observable outcomes");
+    run.set("rule", "state = Program<Name>; s0 = the program handed to the optimiser (hook H1); transitions = the public passes in the order of aiken_optimize_and_intern, replayed by the harness and bound to finalize's output by flat-byte equality (traces_validated_against_impl); every distinct state is evaluated on the full argument product and compared with s0 (quick: all intermediate states for every 4th function, s0 vs final for the rest; thorough: all states); inputs: the C01 strata + the constant-folding family (every foldable builtin x boundary literals) + every argument-less test and every validator of the dependency-free example projects (compiled through the real Project); distinct_nontrivial = distinct observable outcomes");
     run.assume("only compiler output is fed to the optimiser (what the property states); results are compared as failure / constant value");
     if t.functions == 0 || t.bound_ok == 0 {
         run.machinery_error("vacuous: no function reached the comparison");
